@@ -383,6 +383,23 @@ def canary(C):
     return [{"rule": "C10.K3", "fired": fired, "expect_min": 2, "expect_absent": ["guarded_len_minus_one", "checked"]}]
 
 
+def rule_k5(F):
+    """No built-in writes past the storage of a list: the raw list operations (`extend`, `push`, `with_capacity` + copy) are reached
+    only through the list's own MutexGuard, so the length a copy is sized for and the length that is copied are read under one
+    acquisition (`concat` sampling `other.len()` under a separate lock and copying later overflows the heap when another thread
+    pushes in between - a well-typed script kills the host).  Shared with C16.M2."""
+    from . import c16
+    r = RuleResult("C16.M2", "RawList methods are only called through the mutex guard (or on a not-yet-shared list)", floor=15)
+    c16.rule_m2(F, r)
+    rs = [r]
+    r = rs[0]
+    r.rule = "C10.K5"
+    r.desc = "raw list storage operations are reached only through the list's own MutexGuard (no copy sized by a length read under another acquisition)"
+    for v in r.violations:
+        v.rule = "C10.K5"
+    return r
+
+
 def rules(ctx):
     F = ctx["F"]
-    return [rule_k1(F), rule_k2(F), rule_k3(F), rule_k4(F)]
+    return [rule_k1(F), rule_k2(F), rule_k3(F), rule_k4(F), rule_k5(F)]
